@@ -42,6 +42,10 @@ pub trait Subject: Sync + Send {
     fn format_with_width(&self, text: &str, width: usize) -> String;
     /// `Typstyle::new(cfg).format_source_range(Source::detached(text), range)`
     fn format_range(&self, text: &str, range: Range<usize>, cfg: &Cfg) -> Result<(Range<usize>, String), Refused>;
+    /// The same call for many ranges over one parsed `Source`; each result is guarded separately
+    /// (Err(String) = panic message).
+    #[allow(clippy::type_complexity)]
+    fn format_ranges(&self, text: &str, ranges: &[Range<usize>], cfg: &Cfg) -> Vec<Result<Result<(Range<usize>, String), Refused>, String>>;
 }
 
 /// Run `f`, turning a panic into Err(message). The default panic hook is silenced by the binary.
